@@ -15,7 +15,8 @@
   kind    := C | I | L | R | F
   JC      := - | O Cond | U n (li ri)*          (li / ri: column index in the left / right operand)
   Where   := - | W Cond
-  Sel     := * | S n i… | L n item…      item := i idx out|- | r view|- name out|-     (out = AS name)
+  Sel     := * | S n i… | L n item…      item := i idx out|- | r view|- name out|- | v lit out|- | b Cond out|- | k Cond lit lit out|-
+             (out = AS name; v = literal, b = a condition as a value, k = CASE WHEN Cond THEN lit ELSE lit END)
   Cond    := cmp op E E | and C C | or C C | not C | isnull neg E | btw neg E E E | in neg E n v… | truth E
   E       := c side idx | l v | n view|- name        (field reference by name, resolved by the model)
   A last token `#<hex>` (the SQL text that was run) is ignored.
@@ -40,6 +41,7 @@ inductive JCond
 inductive SelItem
   | idx (i : Nat) (out : Option String)
   | ref (view : Option String) (name : String) (out : Option String)
+  | comp (it : Item) (out : Option String)      -- a computed item (literal, condition as value, CASE)
 
 inductive Sel
   | star
@@ -99,19 +101,6 @@ def pNames : Nat → P (List String)
     pure (t :: r, ts)
   | _, [] => none
 
-def pSelItems : Nat → P (List SelItem)
-  | 0, ts => some ([], ts)
-  | n + 1, "i" :: i :: ts => do
-    let i ← i.toNat?
-    let (o, ts) ← pOptName ts
-    let (r, ts) ← pSelItems n ts
-    pure (.idx i o :: r, ts)
-  | n + 1, "r" :: v :: name :: ts => do
-    let (o, ts) ← pOptName ts
-    let (r, ts) ← pSelItems n ts
-    pure (.ref (if v = "-" then none else some v) name o :: r, ts)
-  | _, _ => none
-
 def pNamedTbls : Nat → P (List NamedTbl)
   | 0, ts => some ([], ts)
   | n + 1, name :: ts => do
@@ -168,6 +157,39 @@ def pCond (vals : Array Profile) : Nat → P CondE
     | _ => none
   | _, [] => none
 
+def pSelItems (vals : Array Profile) (fuel : Nat) : Nat → P (List SelItem)
+  | 0, ts => some ([], ts)
+  | n + 1, "i" :: i :: ts => do
+    let i ← i.toNat?
+    let (o, ts) ← pOptName ts
+    let (r, ts) ← pSelItems vals fuel n ts
+    pure (.idx i o :: r, ts)
+  | n + 1, "r" :: v :: name :: ts => do
+    let (o, ts) ← pOptName ts
+    let (r, ts) ← pSelItems vals fuel n ts
+    pure (.ref (if v = "-" then none else some v) name o :: r, ts)
+  | n + 1, "v" :: v :: ts => do
+    let v ← v.toNat?
+    let p ← vals[v]?
+    let (o, ts) ← pOptName ts
+    let (r, ts) ← pSelItems vals fuel n ts
+    pure (.comp (.lit p) o :: r, ts)
+  | n + 1, "b" :: ts => do
+    let (c, ts) ← pCond vals fuel ts
+    let (o, ts) ← pOptName ts
+    let (r, ts) ← pSelItems vals fuel n ts
+    pure (.comp (.cond c) o :: r, ts)
+  | n + 1, "k" :: ts => do
+    let (c, ts) ← pCond vals fuel ts
+    let (a, ts) ← pNat ts
+    let (b, ts) ← pNat ts
+    let pa ← vals[a]?
+    let pb ← vals[b]?
+    let (o, ts) ← pOptName ts
+    let (r, ts) ← pSelItems vals fuel n ts
+    pure (.comp (.case c pa pb) o :: r, ts)
+  | _, _ => none
+
 def pairUp : List Nat → List (Nat × Nat)
   | a :: b :: rest => (a, b) :: pairUp rest
   | _ => []
@@ -218,7 +240,7 @@ def pPlan (vals : Array Profile) : Nat → P Plan
           pure (Sel.idxs is, ts)
         | "L" :: ts => do
           let (n, ts) ← pNat ts
-          let (is, ts) ← pSelItems n ts
+          let (is, ts) ← pSelItems vals f n ts
           pure (Sel.items is, ts)
         | _ => none)
       pure (.query src wh sel, ts)
@@ -417,7 +439,7 @@ def eval (env : Env) : Plan → Except String (Hdr × List Row)
       -- items are evaluated in order; the `AS` name of an item becomes a further name of its column for the
       -- items after it (`evalColumn` appends it to Header[idx].Aliases).  An item that does not resolve is
       -- evaluated per record: an error only if there is a record.
-      let step := fun (st : Except String (Hdr × List (Option Nat × String × String))) (it : SelItem) => do
+      let step := fun (st : Except String (Hdr × List (Option Item × String × String))) (it : SelItem) => do
         let (h, acc) ← st
         let addAlias := fun (h : Hdr) (i : Nat) (out : Option String) =>
           match out with
@@ -428,16 +450,30 @@ def eval (env : Env) : Plan → Except String (Hdr × List Row)
         match it with
         | .idx i out =>
           (match h[i]? with
-          | some f => pure (addAlias h i out, acc ++ [(some i, out.getD f.name, f.view)])
+          | some f => pure (addAlias h i out, acc ++ [(some (Item.col i), out.getD f.name, f.view)])
           | none => throw bad)
         | .ref v n out =>
           (match fieldIndex h v n with
-          | .ok i => pure (addAlias h i out, acc ++ [(some i, out.getD n, ((h[i]?).map (fun f => f.view)).getD "")])
+          | .ok i => pure (addAlias h i out, acc ++ [(some (Item.col i), out.getD n, ((h[i]?).map (fun f => f.view)).getD "")])
           | .error e => if rows.isEmpty then pure (h, acc ++ [(none, out.getD n, "")]) else throw (errStr e))
+        | .comp item out =>
+          -- calculated for every record; only index references and literals inside (checked)
+          let item := (match item with
+            | .cond c => Item.cond (resolveCond h c)
+            | .case c a b => Item.case (resolveCond h c) a b
+            | x => x)
+          let pure? := (match item with
+            | .cond c => condPure c
+            | .case c _ _ => condPure c
+            | _ => true)
+          if !pure? then throw bad else pure (h, acc ++ [(some item, out.getD "", "")])
       let (_, resolved) ← items.foldl step (pure (h, []))
-      let idxs := resolved.filterMap (fun (x : Option Nat × String × String) => x.1)
-      let out ← (if idxs.length = resolved.length then optE (projectImpl (chunkN env.w rows) idxs) else pure [])
-      pure (resolved.map (fun (x : Option Nat × String × String) => { view := x.2.2, name := x.2.1, isJoin := false }), out)
+      let its := resolved.filterMap (fun (x : Option Item × String × String) => x.1)
+      let allCols := its.all (fun it => match it with | .col _ => true | _ => false)
+      let out ← (if its.length ≠ resolved.length then pure []
+        else if allCols then optE (projectImpl (chunkN env.w rows) (its.filterMap (fun it => match it with | .col i => some i | _ => none)))
+        else pure (selectRows its rows))
+      pure (resolved.map (fun (x : Option Item × String × String) => { view := x.2.2, name := x.2.1, isJoin := false }), out)
   | .alias a names p => do
     let (h, rows) ← eval env p
     let h ← renameHdr names h
